@@ -184,6 +184,44 @@ def run(ctx):
                           shape=list(shape), symmetric=sym, index=bad[0].tolist() if len(bad) else None,
                           inputs=[x.tolist() for x in keep], array_call=[r.tolist(), e.tolist()], scalar_calls=[sr.tolist(), se.tolist()])
 
+    # arrays in which *every* element is stalled (constant sequences, all zeros, a tie in the last pair): shapes, the symmetric trimming
+    # and broadcasting of a scalar term must be what they are for any other array
+    for _ in range(ctx.budget(30, 200)):
+        nn = rng.randint(2, 6)
+        kind = rng.choice(['constant', 'zeros', 'last-tie', 'first-tie'])
+        base = np.array([rng.choice([0.0, 1.0, -2.5, rng.uniform(-3, 3)]) for _ in range(nn)])
+        if kind == 'constant':
+            v0 = v1 = v2 = base
+        elif kind == 'zeros':
+            v0 = v1 = v2 = np.zeros(nn)
+        elif kind == 'last-tie':
+            v0, v1 = base + 1.0, base
+            v2 = base
+        else:
+            v0 = v1 = base
+            v2 = base + 0.5
+        sym = rng.random() < 0.6
+        scalar_last = rng.random() < 0.3 and kind in ('constant', 'zeros') and float(np.ptp(v2)) == 0.0
+        a2 = float(v2[0]) if scalar_last else v2.copy()
+        ctx.tried(('all-stalled', kind, nn, sym, scalar_last))
+        try:
+            with warnings.catch_warnings():
+                warnings.simplefilter('ignore')
+                r, e = dea3(v0.copy(), v1.copy(), a2, symmetric=sym)
+                rs = [dea3(float(a), float(b), float(c)) for a, b, c in zip(v0, v1, v2)]
+        except Exception as ex:
+            ctx.violation('dea3 raised %r' % ex, inputs=[v0.tolist(), v1.tolist(), np.ravel(a2).tolist()], symmetric=sym)
+            continue
+        want_r = np.array([float(np.ravel(t[0])[0]) for t in rs])
+        want_e = np.array([float(np.ravel(t[1])[0]) for t in rs])
+        if sym and nn > 1:
+            want_r, want_e = want_r[:-1], want_e[1:]
+        if np.shape(r) != want_r.shape or np.shape(e) != want_e.shape or not np.array_equal(r, want_r) or not np.array_equal(e, want_e):
+            ctx.violation('dea3 on an array whose elements are all stalled (constant / tied terms) differs from the elementwise result: shape or '
+                          'values', kind=kind, symmetric=sym, scalar_last_term=scalar_last, inputs=[v0.tolist(), v1.tolist(), np.ravel(a2).tolist()],
+                          got_shapes=[list(np.shape(r)), list(np.shape(e))], expected_shapes=[list(want_r.shape), list(want_e.shape)],
+                          got=[np.ravel(r).tolist(), np.ravel(e).tolist()], expected=[want_r.tolist(), want_e.tolist()])
+
     # ---------------- failing-input search on the implementation ------------------------------
     budget = ctx.budget(6000, 60000)
     if ctx.broken or ctx.mismatches:
